@@ -6,6 +6,7 @@ import (
 	"fmt"
 	"runtime"
 	"sync"
+	"sync/atomic"
 	"time"
 
 	txfile "github.com/elastic/go-txfile"
@@ -89,7 +90,10 @@ func RunC13(p *PCProgram) Result {
 		closeFile()
 		return fail("q-open", "delegate: %v", err)
 	}
-	q, err := pq.New(del, pq.Settings{WriteBuffer: p.Cfg.WriteBuffer})
+	// Flushed callback total: the callback runs after the flush transaction has been committed,
+	// so at any later instant at least that many events are in the file
+	var flushedCB int64
+	q, err := pq.New(del, pq.Settings{WriteBuffer: p.Cfg.WriteBuffer, Flushed: func(n uint) { atomic.AddInt64(&flushedCB, int64(n)) }})
 	if err != nil {
 		closeFile()
 		return fail("q-open", "pq.New: %v", err)
@@ -322,6 +326,13 @@ func RunC13(p *PCProgram) Result {
 					return
 				}
 				acked += a
+				// counters under concurrency: events only enter through flushes (whose total the
+				// callback has reported) and only leave through this goroutine's ACKs
+				f0 := atomic.LoadInt64(&flushedCB)
+				if act, err := q.Active(); err != nil || int64(act) < f0-int64(acked) {
+					report("q-counters-concurrent", "after ACK (acked %d in total) the Flushed callback had reported %d events, but Active()=%d err=%v: flushed events are missing from the queue", acked, f0, act, err)
+					return
+				}
 				mu.Lock()
 				acks++
 				select {
